@@ -77,3 +77,33 @@ def restrict(facts: set[Fact], vocabulary: set[str]) -> set[Fact]:
 
 def show(facts: set[Fact]) -> str:
     return "; ".join(f"{v} when {sorted((t if p else 'not ' + t) for t, p in c) or ['always']}" for v, c in sorted(facts, key=lambda x: x[0]))
+
+
+def possible_values(facts: set[Fact], atoms: list[str]) -> dict[tuple[bool, ...], set[str]]:
+    """Propositional abstraction: for every truth assignment of `atoms` (condition sub-expressions, by text), the set of values
+    whose conditions all hold.  Condition texts must be boolean combinations (and / or / not / in-negation) of the atoms."""
+    import itertools
+
+    def ev(n: ast.AST, env: dict[str, bool]) -> bool:
+        t = unparse(n)
+        if t in env:
+            return env[t]
+        if isinstance(n, ast.BoolOp):
+            vals = [ev(v, env) for v in n.values]
+            return all(vals) if isinstance(n.op, ast.And) else any(vals)
+        if isinstance(n, ast.UnaryOp) and isinstance(n.op, ast.Not):
+            return not ev(n.operand, env)
+        if isinstance(n, ast.Compare) and len(n.ops) == 1 and isinstance(n.ops[0], (ast.NotIn, ast.IsNot, ast.NotEq)):
+            flip = {ast.NotIn: ast.In, ast.IsNot: ast.Is, ast.NotEq: ast.Eq}[type(n.ops[0])]
+            return not ev(ast.Compare(n.left, [flip()], n.comparators), env)
+        raise AnalysisError(f"condition `{t}` is not a boolean combination of {atoms}")
+
+    out: dict[tuple[bool, ...], set[str]] = {}
+    for combo in itertools.product([True, False], repeat=len(atoms)):
+        env = dict(zip(atoms, combo))
+        vals = set()
+        for v, conds in facts:
+            if all(ev(ast.parse(t, mode="eval").body, env) == pol for t, pol in conds):
+                vals.add(v)
+        out[combo] = vals
+    return out
